@@ -74,6 +74,7 @@ MIN = {
     'overwrite_attempts': 120, 'preexisting_run_dirs_compared': 7000,
     'reinstall_ok': 400, 'clean_removed_run': 1200,
     'histories_real_rsync': 30,
+    'histories_with_two_digit_run_numbers': 60,
 }
 CASE_TIMEOUT = 120
 NCASES = {'quick': 1600, 'thorough': 24000}
@@ -564,11 +565,21 @@ def run_case(ctx, i, rng):
                 pre[(m.name, d)] = (rec['roots'], fp_run(rec['roots']))
         return pre
 
+    # some histories begin with 9-12 plain numbered installs, so that run
+    # numbers of different widths (run9, run10, ...) exist when runs are
+    # cleaned and installed afterwards
+    prelude = rng.randint(9, 12) if rng.random() < 0.08 else 0
+    if prelude:
+        ctx.count('histories_with_two_digit_run_numbers')
+    nops += prelude
     for step in range(1, nops + 1):
         m = models[rng.choice(names) if rng.random() < 0.35 else names[0]]
+        forced = step <= prelude
+        if forced:
+            m = models[names[0]]
         existing = sorted(m.runs)
         r = rng.random()
-        if not existing or r < 0.46:
+        if forced or not existing or r < 0.46:
             kind = 'install'
         elif r < 0.74:
             kind = 'clean'
@@ -592,6 +603,8 @@ def run_case(ctx, i, rng):
 
         if kind == 'install':
             rr = rng.random()
+            if forced:
+                rr = 0.5
             run_name, no_run_name = None, False
             if rr < 0.10:
                 run_name = rng.choice(RUN_NAMES)
